@@ -16,7 +16,8 @@ for f in d["findings"]:
         open_ids.add(base)
         continue
     what = re.sub(r"^fixed: property=\S+ \S+ ", "", f["what"])
-    rows.append(f"| {base} | {f.get('property')} | {what} | `{log.get(f.get('commit', ''), '?')}` |")
+    label = re.match(r"F\d+[a-z]?", f["id"]).group(0)
+    rows.append(f"| {label} | {f.get('property')} | {what} | `{log.get(f.get('commit', ''), '?')}` |")
 p = os.path.join(VERIF, "DESIGN.md")
 s = open(p).read()
 hdr = "| id | property | what failed | commit subject |\n|---|---|---|---|\n"
